@@ -546,6 +546,8 @@ func runSchedule(sc *schedule, statePass bool) *replayResult {
 		defer r.guard("final:PrintTable")
 		e.s.PrintTable()
 	}()
+	e.sample()
+	e.dumpObjects()
 	res.Final = r.abstract()
 	for _, b := range c05(res.Final) {
 		res.C05 = append(res.C05, fmt.Sprintf("%d:%s", len(sc.Sched), b))
